@@ -44,6 +44,26 @@ def run(ctx):
             ident = c.get("s") if c.get("diag") == "path" else json.dumps([c.get("paths"), c.get("circles"), c.get("vb")])
             ctx.violation("%s:%s:%s" % (m["route"], m["what"].split(":")[0][:40], ident),
                           "front end differs from the meaning of the path: " + m["what"], m)
+    # concatenating transforms is matrix composition; absolute operands the full transform, relative ones and radii the
+    # scale: Aff3.tla / GEN_Aff3 (section 11 X06) restricted to the scale-and-translate matrices of its pool - every list
+    # of up to 4, configured by list / by product / after an earlier SetTransform, one path with every verb
+    gen = os.path.join(ctx.tmp, "GEN_Aff3.out")
+    g = ctx.tlc("GEN_Aff3", "GEN_Aff3_diag", timeout=1800, out_file=gen)
+    if g["error"] or not g["finished"]:
+        raise vlib.Broken("GEN_Aff3 failed (spec-level):\n%s" % vlib.tail(g["out"]))
+    ctx.mc.append({k: g[k] for k in ("module", "cfg", "generated", "distinct", "wall_s")})
+    mis = os.path.join(ctx.tmp, "aff3.mis")
+    p, _ = ctx.run_harness(["replay-aff3", "-in", gen, "-out", mis], timeout=3000)
+    s = deccheck.summary_of(p)
+    if s["cases"] < 500:
+        raise vlib.Broken("too few generated transform lists: %d" % s["cases"])
+    tot["cases"] += s["cases"]
+    for k, v in s["routes"].items():
+        tot["routes"][k] = tot["routes"].get(k, 0) + v
+    for line in open(mis):
+        m = json.loads(line)
+        ctx.violation("aff3:%s:%s" % (m["route"], m["ix"]),
+                      "transform handling differs from matrix composition (%s, matrices %s): %s" % (m["route"], m["ix"], m["what"]), m)
     st = sum(m["distinct"] for m in ctx.mc)
     tr = sum(m["generated"] for m in ctx.mc)
     cov = dict(states=st, transitions=tr, traces_validated_against_impl=tot["cases"],
